@@ -765,6 +765,8 @@ class Folder:
             return None
         if isinstance(recv, dict) and f.attr == "copy" and not args:
             return dict(recv)
+        if isinstance(recv, dict) and f.attr in ("items", "keys", "values") and not args:
+            return [tuple(kv) for kv in recv.items()] if f.attr == "items" else list(getattr(recv, f.attr)())
         if isinstance(recv, dict) and f.attr == "get":
             return recv.get(args[0], args[1] if len(args) > 1 else None)
         if isinstance(recv, dict) and f.attr == "pop" and len(args) == 2:
@@ -1216,6 +1218,27 @@ class Folder:
             if isinstance(e, ast.Name):
                 name = e.id
             raise Raised(name, st)
+        if isinstance(st, ast.Try) and not getattr(st, "finalbody", None):
+            # try / except without finally: a raised exception (of the folding language) selects the first handler that names it, a parent
+            # of it, or nothing; exceptions the handlers do not name propagate
+            PARENTS = {"KeyError": ("LookupError",), "IndexError": ("LookupError",), "ZeroDivisionError": ("ArithmeticError",), "AxisError": ("ValueError", "IndexError"),
+                       "NotImplementedError": ("RuntimeError",), "FileNotFoundError": ("OSError",), "UnboundLocalError": ("NameError",)}
+            try:
+                self.block(st.body, env)
+            except Raised as r:
+                names = {r.name, "Exception", "BaseException"} | set(PARENTS.get(r.name, ()))
+                for h in st.handlers:
+                    hn = [h.type] if h.type is not None and not isinstance(h.type, ast.Tuple) else (list(h.type.elts) if h.type is not None else [])
+                    hnames = {(x.id if isinstance(x, ast.Name) else getattr(x, "attr", None)) for x in hn}
+                    if h.type is None or hnames & names:
+                        if h.name:
+                            env[h.name] = Opaque("exception", r.name)
+                        self.block(h.body, env)
+                        return
+                raise
+            else:
+                self.block(st.orelse, env)
+            return
         if isinstance(st, ast.If):
             if self.truth(self.ev(st.test, env)):
                 self.block(st.body, env)
